@@ -1372,20 +1372,35 @@ theorem tail_wp (K : Crypto) (dm : DataMsg) (tlvs : List Tlv) (x : Bytes)
   refine ⟨fun _ => ?_, fun _ => ?_⟩
   · apply wp_randRead
     intro np s1 hc he
-    simp only [wp_bind, wp_modc]
-    split
-    · simp only [wp_bind, wp_throw]
-      simp only [hc]
-      exact hrot1 np
-    · simp only [wp_bind, wp_modc, wp_ite', wp_pure]
-      refine hrest _ ?_ ?_
-      · simp only [hc]; exact hrot2 np
-      · simp only [hc]
-  · split
-    · simp only [wp_bind, wp_throw]
-      exact hrot1 none
-    · simp only [wp_bind, wp_modc, wp_ite', wp_pure]
+    simp only [wp_bind, wp_modc, wp_ite', wp_pure]
+    simp only [hc]
+    cases hE : (Keys.rotateOurKeys K s.conv.keys dm.recipientKeyID np).snd with
+    | none =>
+      simp only [wp_bind, wp_modc, wp_ite', wp_pure, Option.isNone_none, true_implies, not_true_eq_false,
+        false_implies, and_true]
+      exact hrest ⟨_, s1.env, s1.events, s1.mismatch⟩ (hrot2 np) rfl
+    | some e =>
+      simp only [Option.isNone_some, Bool.false_eq_true, false_implies, not_false_eq_true, true_implies, true_and]
+      refine wp_mono _ _ _ _ _ _ (processTLVs_inv K tlvs x I hI hlen ⟨_, s1.env, s1.events, s1.mismatch⟩ (hrot1 np))
+        ?_ (fun _ h => Or.inl h)
+      intro r s2 ⟨h2, _⟩
+      cases r with
+      | error e => exact h2
+      | ok a => simp only [wp_bind, wp_throw]; exact h2
+  · cases hE : (Keys.rotateOurKeys K s.conv.keys dm.recipientKeyID none).snd with
+    | none =>
+      simp only [wp_bind, wp_modc, wp_ite', wp_pure, Option.isNone_none, true_implies, not_true_eq_false,
+        false_implies, and_true]
       exact hrest ⟨_, s.env, s.events, s.mismatch⟩ (hrot2 none) rfl
+    | some e =>
+      simp only [wp_bind, wp_modc, wp_ite', wp_pure, Option.isNone_some, Bool.false_eq_true, false_implies,
+        not_false_eq_true, true_implies, true_and]
+      refine wp_mono _ _ _ _ _ _ (processTLVs_inv K tlvs x I hI hlen ⟨_, s.env, s.events, s.mismatch⟩ (hrot1 none))
+        ?_ (fun _ h => Or.inl h)
+      intro r s2 ⟨h2, _⟩
+      cases r with
+      | error e => exact h2
+      | ok a => simp only [wp_bind, wp_throw]; exact h2
 
 
 /-! ### C05 link: an accepted counter is recorded, an immediate replay is rejected -/
@@ -2180,19 +2195,37 @@ theorem tail_gen (K : Crypto) (dm : DataMsg) (tlvs : List Tlv) (x : Bytes) (I : 
   refine ⟨fun _ => ?_, fun _ => ?_⟩
   · apply wp_randRead
     intro np s1 hc he
-    simp only [wp_bind, wp_modc]
-    split
-    · simp only [wp_bind, wp_throw]
-      simp only [hc]
-      exact hrot1 np
-    · simp only [wp_bind, wp_modc, wp_ite', wp_pure]
-      refine hrest _ ?_
-      simp only [hc]; exact hrot2 np
-  · split
-    · simp only [wp_bind, wp_throw]
-      exact hrot1 none
-    · simp only [wp_bind, wp_modc, wp_ite', wp_pure]
+    simp only [wp_bind, wp_modc, wp_ite', wp_pure]
+    simp only [hc]
+    cases hE : (Keys.rotateOurKeys K s.conv.keys dm.recipientKeyID np).snd with
+    | none =>
+      simp only [wp_bind, wp_modc, wp_ite', wp_pure, Option.isNone_none, true_implies, not_true_eq_false,
+        false_implies, and_true]
+      exact hrest ⟨_, s1.env, s1.events, s1.mismatch⟩ (hrot2 np)
+    | some e =>
+      simp only [Option.isNone_some, Bool.false_eq_true, false_implies, not_false_eq_true, true_implies, true_and]
+      refine wp_mono _ _ _ _ _ _
+        (processTLVs_gen K tlvs x I S hdisc hsmp hlen ⟨_, s1.env, s1.events, s1.mismatch⟩ (hrot1 np))
+        ?_ (fun _ h => Or.inl h)
+      intro r s2 h2
+      cases r with
+      | error e => exact h2
+      | ok a => simp only [wp_bind, wp_throw]; exact h2
+  · cases hE : (Keys.rotateOurKeys K s.conv.keys dm.recipientKeyID none).snd with
+    | none =>
+      simp only [wp_bind, wp_modc, wp_ite', wp_pure, Option.isNone_none, true_implies, not_true_eq_false,
+        false_implies, and_true]
       exact hrest ⟨_, s.env, s.events, s.mismatch⟩ (hrot2 none)
+    | some e =>
+      simp only [wp_bind, wp_modc, wp_ite', wp_pure, Option.isNone_some, Bool.false_eq_true, false_implies,
+        not_false_eq_true, true_implies, true_and]
+      refine wp_mono _ _ _ _ _ _
+        (processTLVs_gen K tlvs x I S hdisc hsmp hlen ⟨_, s.env, s.events, s.mismatch⟩ (hrot1 none))
+        ?_ (fun _ h => Or.inl h)
+      intro r s2 h2
+      cases r with
+      | error e => exact h2
+      | ok a => simp only [wp_bind, wp_throw]; exact h2
 
 
 /-- well-formedness of an encrypted conversation as far as the data path is concerned -/
@@ -2612,6 +2645,193 @@ theorem raw_preserves_smpWaitWF (K : Crypto) (header msg : Bytes) (s s' : MState
     · rw [hc]; exact h
 
 
+/-! ### the peer's disconnect TLV is acted upon even when the key rotation fails (repair c2434f4) -/
+
 namespace ConvData
+
+/-- two-phase loop rule: the iterations over `l1` neither throw nor leave the loop, the iteration `d` establishes
+    `I`, the iterations over `l2` preserve it (on normal and exceptional exit) -/
+theorem wp_forIn_phase {β γ : Type} (l1 l2 : List β) (d : β) (f : β → γ → M (ForInStep γ)) (I : MState → Prop)
+    (S : String → Prop)
+    (h1 : ∀ b ∈ l1, ∀ g s, wp (f b g) (fun r _ => ∃ g', r = .ok (.yield g')) S s)
+    (hd : ∀ g s, wp (f d g) (fun _ s' => I s') S s)
+    (h2 : ∀ b ∈ l2, ∀ g s, I s → wp (f b g) (fun _ s' => I s') S s) :
+    ∀ init s, wp (forIn (l1 ++ d :: l2) init f) (fun _ s' => I s') S s := by
+  induction l1 with
+  | nil =>
+    intro init s
+    rw [List.nil_append, List.forIn_cons]
+    apply wp_bind_cut _ _ I
+    · exact hd init s
+    · intro r s' h'
+      cases r with
+      | done b => exact h'
+      | yield b => exact wp_forIn l2 f I S h2 b s' h'
+    · intro e s' h'; exact h'
+  | cons a as ih =>
+    intro init s
+    rw [List.cons_append, List.forIn_cons, wp_bind]
+    refine wp_mono _ _ _ _ _ _ (h1 a (by simp) init s) ?_ (fun _ h => h)
+    intro r s' ⟨g', hr⟩
+    subst hr
+    exact ih (fun b hb => h1 b (by simp [hb])) g' s'
+
+/-- **the peer's disconnect TLV is acted upon**: when the TLVs of a message contain a disconnected TLV and no SMP
+    TLV comes before it (SMP TLVs are the only ones that can make `processTLVs` stop with an error), every outcome
+    of `processTLVs` - normal, or an error thrown by a later TLV - is in the `finished` state; from any state -/
+theorem processTLVs_disconnect (K : Crypto) (pre post : List Tlv) (d : Tlv) (x : Bytes) (s : MState)
+    (hd : d.typ = tlvTypeDisconnected) (hpre : ∀ t ∈ pre, t.typ < 2 ∨ 8 ≤ t.typ) :
+    wp (processTLVs K (pre ++ d :: post) x) (fun _ s' => s'.conv.msgState = .finished) (fun _ => True) s := by
+  unfold processTLVs
+  simp only [wp_bind]
+  refine wp_mono _ (fun _ s' => s'.conv.msgState = .finished) _ _ _ _ ?_ ?_ (fun _ h => h)
+  · apply wp_forIn_phase pre post d _ (fun s' => s'.conv.msgState = .finished)
+    · intro t ht g s1
+      have := hpre t ht
+      simp only [processDisconnectedTLV, processExtraSymmetricKeyTLV, secEvent, tlvTypePadding, tlvTypeDisconnected,
+        tlvTypeExtraSymmetricKey]
+      repeat' (first
+        | simp only [wp_bind, wp_getc, wp_modc, wp_ite', wp_pure, wp_ev, wp_goPanic]
+        | refine ⟨fun _ => ?_, fun _ => ?_⟩
+        | split)
+      all_goals first
+        | exact ⟨_, rfl⟩
+        | trivial
+        | (exfalso; omega)
+    · intro g s1
+      have hd' : d.typ = 1 := hd
+      simp only [hd', processDisconnectedTLV, secEvent, tlvTypePadding, tlvTypeDisconnected, ge_iff_le,
+        Nat.reduceLeDiff, ↓reduceIte, Nat.succ_ne_self]
+      repeat' (first
+        | simp only [wp_bind, wp_getc, wp_modc, wp_ite', wp_pure, wp_ev]
+        | refine ⟨fun _ => ?_, fun _ => ?_⟩
+        | split)
+      all_goals rfl
+    · intro t ht g s1 h1
+      simp only [processDisconnectedTLV, processExtraSymmetricKeyTLV, secEvent]
+      repeat' (first
+        | simp only [wp_bind, wp_getc, wp_modc, wp_ite', wp_pure, wp_ev, wp_goPanic]
+        | refine ⟨fun _ => ?_, fun _ => ?_⟩
+        | split)
+      all_goals first
+        | exact h1
+        | trivial
+        | skip
+      refine wp_mono _ _ _ _ _ _ (processSMPTLV_frame K t s1) ?_ (fun _ _ => trivial)
+      intro r s2 hf
+      have h2 : s2.conv.msgState = .finished := by
+        unfold SmpFrame at hf; rw [hf]; exact h1
+      cases r with
+      | error e => exact h2
+      | ok a => cases a <;> exact h2
+  · intro r s' h'
+    cases r with
+    | ok a => exact h'
+    | error e => exact h'
+
+/-- the reply part of `processDataMessageTail` does not touch the message state -/
+theorem tailReply_msgState (K : Crypto) (replies : List Tlv) (s : MState) (m : MsgState) (h : s.conv.msgState = m) :
+    wp (if replies.length > 0 then
+          genDataMsgWithFlag K [] (decideFlagFrom replies) replies >>= fun p =>
+            wrapMessageHeader msgTypeData p.fst.serialize >>= fun ts => pure (some ts)
+        else pure none : M (Option Bytes)) (fun _ s' => s'.conv.msgState = m) (fun _ => True) s := by
+  simp only [wp_ite', wp_pure, wp_bind]
+  refine ⟨fun _ => ?_, fun _ => h⟩
+  refine wp_mono _ _ _ _ _ _ (genDataMsgWithFlag_spec K _ _ _ s) ?_ (fun _ _ => trivial)
+  intro r s2 hg
+  have h2 : s2.conv.msgState = m := hg.2.1.trans h
+  cases r with
+  | error e => exact h2
+  | ok a =>
+    simp only [wrapMessageHeader, wp_bind, wp_pure]
+    refine wp_mono _ _ _ _ _ _ (messageHeader_frame _ s2) ?_ (fun _ _ => trivial)
+    intro r s3 ⟨hf, _⟩
+    have h3 : s3.conv.msgState = m := by unfold TagFrame at hf; rw [hf]; exact h2
+    cases r <;> exact h3
+
+/-- **an accepted data message carrying the peer's disconnect TLV ends the conversation, whatever the key rotation
+    does**: every outcome of `processDataMessageTail` - a reply, nothing, the rotation error, an error of a later
+    TLV - is in the `finished` state (no SMP TLV before the disconnect TLV; from any state) -/
+theorem tail_disconnect (K : Crypto) (dm : DataMsg) (pre post : List Tlv) (d : Tlv) (x : Bytes) (s : MState)
+    (hd : d.typ = tlvTypeDisconnected) (hpre : ∀ t ∈ pre, t.typ < 2 ∨ 8 ≤ t.typ) :
+    wp (processDataMessageTail K dm (pre ++ d :: post) x)
+      (fun _ s' => s'.conv.msgState = .finished) (fun _ => True) s := by
+  unfold processDataMessageTail
+  simp only [wp_bind, wp_getc, wp_ite', wp_modc, wp_pure]
+  refine ⟨fun _ => ?_, fun _ => ?_⟩
+  · apply wp_randRead
+    intro np s1 hc he
+    refine ⟨fun _ => ?_, fun _ => ?_⟩
+    all_goals
+      refine wp_mono _ _ _ _ _ _ (processTLVs_disconnect K pre post d x _ hd hpre) ?_ (fun _ h => h)
+      intro r s2 h2
+      cases r with
+      | error e' => exact h2
+      | ok a =>
+        dsimp only
+        split
+        · simp only [wp_bind, wp_throw]; exact h2
+        · exact tailReply_msgState K a s2 _ h2
+  · refine ⟨fun _ => ?_, fun _ => ?_⟩
+    all_goals
+      refine wp_mono _ _ _ _ _ _ (processTLVs_disconnect K pre post d x _ hd hpre) ?_ (fun _ h => h)
+      intro r s2 h2
+      cases r with
+      | error e' => exact h2
+      | ok a =>
+        dsimp only
+        split
+        · simp only [wp_bind, wp_throw]; exact h2
+        · exact tailReply_msgState K a s2 _ h2
+
+/-- **the defect repaired in `processDataMessageWithRawErrors`, as a theorem** (form: `processDataMessageTail`, the part
+    of the function that runs once the message is authentic and accepted - MAC verified, counter fresh).
+    The message asks for a rotation of our keys (`rotatesOur`), the draw of the new key fails (`randRead 40`
+    returns `none`), the TLVs carry a disconnected TLV with no SMP TLV before it: then the call reports an error
+    AND the conversation is `finished` (before the repair it stayed `encrypted`). -/
+theorem receive_disconnect_despite_rotation_failure (K : Crypto) (dm : DataMsg) (pre post : List Tlv) (d : Tlv)
+    (x : Bytes) (s s0 : MState)
+    (hd : d.typ = tlvTypeDisconnected) (hpre : ∀ t ∈ pre, t.typ < 2 ∨ 8 ≤ t.typ)
+    (hrot : s.conv.keys.rotatesOur dm.recipientKeyID = true)
+    (hfail : run' (randRead 40) s = .ok (.ok none, s0))
+    (r : Except Err (Option Bytes)) (s' : MState)
+    (hrun : run' (processDataMessageTail K dm (pre ++ d :: post) x) s = .ok (r, s')) :
+    s'.conv.msgState = .finished ∧ ∃ e, r = .error e := by
+  have h1 := tail_disconnect K dm pre post d x s hd hpre
+  have h2 : wp (processDataMessageTail K dm (pre ++ d :: post) x) (fun r _ => ∃ e, r = .error e) (fun _ => True) s := by
+    unfold processDataMessageTail
+    simp only [wp_bind, wp_getc, wp_ite', wp_modc, wp_pure]
+    refine ⟨fun _ => ?_, fun h => absurd hrot h⟩
+    have hid : dm.recipientKeyID = s.conv.keys.ourKeyID := by
+      simpa [Keys.rotatesOur] using hrot
+    have hfu : Keys.rotateOurKeys K s.conv.keys dm.recipientKeyID none = (s.conv.keys, some .shortRandom) := by
+      unfold Keys.rotateOurKeys
+      rw [if_pos hid]
+    have hw : ∀ Q S, wp (randRead 40) Q S s = Q (.ok none) s0 := by
+      intro Q S; unfold wp; rw [hfail]
+    rw [hw]
+    simp only [hfu, wp_bind, wp_ite', wp_pure, Option.isNone_some, Bool.false_eq_true, false_implies,
+      not_false_eq_true, true_implies, true_and]
+    refine wp_mono _ _ _ _ _ _ (processTLVs_disconnect K pre post d x _ hd hpre) ?_ (fun _ h => h)
+    intro r s2 _
+    cases r with
+    | error e => exact ⟨e, rfl⟩
+    | ok a => simp only [wp_throw]; exact ⟨_, rfl⟩
+  unfold wp at h1 h2
+  rw [hrun] at h1 h2
+  exact ⟨h1, h2⟩
+
+
+/-- non-vacuity: an encrypted state whose next randomness read fails, a message asking for a rotation (`recipientKeyID`
+    = our key id) and carrying a lone disconnected TLV: the hypotheses hold, so the conversation ends -/
+example (K : Crypto) (dm : DataMsg) (hid : dm.recipientKeyID = 1) (x : Bytes) (r : Except Err (Option Bytes))
+    (s' : MState)
+    (hrun : run' (processDataMessageTail K dm ([] ++ { typ := tlvTypeDisconnected, len := 0, value := [] } :: []) x)
+      { conv := { msgState := .encrypted, keys := { ourKeyID := 1 } }, env := { rand := [none] } } = .ok (r, s')) :
+    s'.conv.msgState = .finished ∧ ∃ e, r = .error e :=
+  receive_disconnect_despite_rotation_failure K dm [] [] _ x _
+    { conv := { msgState := .encrypted, keys := { ourKeyID := 1 } }, env := { rand := [] } }
+    rfl (fun _ h => nomatch h) (by rw [hid]; rfl) rfl r s' hrun
+
 end ConvData
 end Otr
